@@ -8,6 +8,9 @@
 
 using namespace vf;
 extern "C" const vapi dflt_api;
+#ifndef VF_FUZZ
+extern "C" const vapi uchar_api;   // the same code compiled with -funsigned-char
+#endif
 static const vapi *A = &dflt_api;
 static const int WHICH[3] = {VP_822_LOCAL, VP_5321_LOCAL, VP_5322_LOCAL};
 static TailBuf TB(4096);
@@ -59,6 +62,10 @@ static std::optional<Failure> check_one(Run &R, int mode, const Bytes &b) {
             return Failure{want ? "address-rejects-valid-local" : "address-accepts-invalid-local", mkcase(mode, b).str(),
                            std::string("is_") + ref::MODE_NAME[mode] + "_email('" + show(b) + dom + "', TLD off) -> " + outcome_str(o) + " but the local part is " + (want ? "valid" : "invalid") + " (reference and is_" + ref::MODE_NAME[mode] + "_local agree)"};
     }
+#ifndef VF_FUZZ
+    { char *p = TB.place(b, '@', Bytes("d.com")); int ru = uchar_api.part(WHICH[mode], p, p + b.size(), 0, nullptr); R.eval();
+      if (ru != rcs[0]) return Failure{"char-signedness", mkcase(mode, b).str(), std::string("mode ") + ref::MODE_NAME[mode] + " local part '" + show(b) + "': return code " + std::to_string(rcs[0]) + " in the default build and " + std::to_string(ru) + " when plain char is unsigned (-funsigned-char)"}; }
+#endif
     if (rcs[0] != rcs[1]) // same string, different terminator: verdict and code must not depend on what follows `end`
         return Failure{"terminator-dependent", mkcase(mode, b).str(), "return code differs between '@' and NUL terminator: " + std::to_string(rcs[0]) + " vs " + std::to_string(rcs[1])};
     return std::nullopt;
